@@ -795,7 +795,7 @@ def wl_long(ctx, rng):
                 accepted(ctx, access(ctx, obj), 'guillot-valid-in-a-long-history', params=dict(d), step=i, rejected_before=rejected)
     if rejected > 100:
         ctx.observe('history:over-a-hundred-rejections-on-one-object')
-    elif rejected > 45:
+    if rejected > 45:
         ctx.observe('history:dozens-of-rejections-on-one-object')
     ctx.sig('long', type(obj).__name__, n, steps, rejected)
 
